@@ -31,6 +31,9 @@ def limbs_to_int(l):
 
 
 def int_to_limbs(v):
+    if v < 0:
+        # a negative mass denotes no value of the specification: travels as a sentinel that equals no expectation
+        return [9998, 9998, 9998, 9998, 9998, 9998, 9998]
     out = []
     while v:
         out.append(v % 10000)
